@@ -712,6 +712,7 @@ struct DriveOut {
     in_after: Vec<usize>,
     out_after: Vec<usize>,
     usage_after: Vec<usize>,
+    live_after: Vec<isize>,
     misuse_panics: Vec<String>,
     misuse_sink_calls: usize,
 }
@@ -728,6 +729,7 @@ fn drive<O: OutputSink, H: HandlerTypes>(
         in_after: Vec::with_capacity(writes.len()),
         out_after: Vec::with_capacity(writes.len()),
         usage_after: Vec::with_capacity(writes.len()),
+        live_after: Vec::with_capacity(writes.len()),
         misuse_panics: vec![],
         misuse_sink_calls: 0,
     };
@@ -735,7 +737,9 @@ fn drive<O: OutputSink, H: HandlerTypes>(
     for (i, &(a, b)) in writes.iter().enumerate() {
         {
             let mut g = lock(rec);
-            g.evs.push(Ev::Write(b - a));
+            if !g.light {
+                g.evs.push(Ev::Write(b - a));
+            }
             g.received += b - a;
         }
         let r = guarded((|| rw.write(&sc.doc[a..b])));
@@ -743,10 +747,13 @@ fn drive<O: OutputSink, H: HandlerTypes>(
             Ok(Ok(())) => {
                 written += b - a;
                 let mut g = lock(rec);
-                g.evs.push(Ev::WriteOk);
+                if !g.light {
+                    g.evs.push(Ev::WriteOk);
+                }
                 d.in_after.push(written);
                 d.out_after.push(g.out.len());
                 d.usage_after.push(limiter.verif_usage());
+                d.live_after.push(crate::heap::live());
             }
             Ok(Err(e)) => {
                 let k = err_kind(&e);
@@ -834,6 +841,8 @@ pub fn run_opts(sc: &Scenario, opts: &RunOpts) -> Result<History, String> {
     if opts.record_charges {
         lol_html::verif::charges_start();
     }
+    lol_html::verif::set_knob(0, if sc.text_buf > 0 { Some(sc.text_buf.max(8)) } else { None });
+    lol_html::verif::set_knob(1, if sc.no_fast_text { Some(1) } else { None });
     if opts.record_positions {
         let r2 = rec.clone();
         lol_html::verif::set_pos_listener(Some(Box::new(move |unemitted| {
@@ -892,6 +901,8 @@ pub fn run_opts(sc: &Scenario, opts: &RunOpts) -> Result<History, String> {
     if opts.record_positions {
         lol_html::verif::set_pos_listener(None);
     }
+    lol_html::verif::set_knob(0, None);
+    lol_html::verif::set_knob(1, None);
     let probes = lol_html::verif::take();
     let d = d?;
     let mut g = lock(&rec);
@@ -911,6 +922,7 @@ pub fn run_opts(sc: &Scenario, opts: &RunOpts) -> Result<History, String> {
         in_after_write: d.in_after,
         out_after_write: d.out_after,
         usage_after_write: d.usage_after,
+        live_after_write: d.live_after,
         outcome: d.outcome,
         invocations: g.invocations,
         charges,
@@ -927,6 +939,7 @@ fn ctor_panic(p: Box<dyn std::any::Any + Send>) -> DriveOut {
         in_after: vec![],
         out_after: vec![],
         usage_after: vec![],
+        live_after: vec![],
         misuse_panics: vec![],
         misuse_sink_calls: 0,
     }
@@ -994,7 +1007,7 @@ fn new_rec(sc: &Scenario) -> Shared {
 }
 
 fn empty_driveout() -> DriveOut {
-    DriveOut { outcome: Outcome::Ok, in_after: vec![], out_after: vec![], usage_after: vec![], misuse_panics: vec![], misuse_sink_calls: 0 }
+    DriveOut { outcome: Outcome::Ok, in_after: vec![], out_after: vec![], usage_after: vec![], live_after: vec![], misuse_panics: vec![], misuse_sink_calls: 0 }
 }
 
 pub fn start_send(sc: &Scenario) -> Result<SendRun, String> {
@@ -1121,6 +1134,7 @@ impl<H: HandlerTypes + 'static> StepRun<H> {
             in_after_write: self.d.in_after.clone(),
             out_after_write: self.d.out_after.clone(),
             usage_after_write: vec![],
+            live_after_write: vec![],
             outcome: self.d.outcome.clone(),
             invocations: g.invocations,
             charges: vec![],
